@@ -391,6 +391,14 @@ def check_c2s(tree, nf, envs, variant, res):
             g = sp_value(conv, sub)
         except Exception as ex:
             err = f"{type(ex).__name__}: {str(ex)[:200]}"
+        if jumpy and err is None and not close(g, ref) and margin(tree, vms[k])[1] < 1e-9 and (e is None or nondyadic(tree, vms[k])):
+            # exactly on a jump, and either the operands are opaque (two roundings of one number) or a non-dyadic
+            # rational (1/3, -7/3) meets a float constant inside SymPy: fmod(fmod(x, 2.5), x) at x = 1/3 is
+            # Mod(0.333.., 1/3) there.  Jumps with dyadic operands (ties of remainder, fmod(a, a)) are exact in
+            # doubles and stay fully checked.
+            C["c2s/ill_conditioned_skipped"] += 1
+            C["c2s/evaluations"] -= 1
+            continue
         if err is not None or not close(g, ref):
             res["bad"].append({"dir": "c2s", "variant": variant, "tree": tree, "nf": nf, "env": env, "exp": exp,
                                "expected": ref, "got": g, "error": err, "source": str(src), "converted": str(conv)[:300],
@@ -406,6 +414,56 @@ class TreeTimeout(BaseException):      # BaseException: must not be swallowed by
 
 def _on_alarm(*_a):
     raise TreeTimeout()
+
+
+def nondyadic(tree, vm):
+    for n in nodes(tree):
+        if n[0] in LEAF:
+            d = (leaf_value(n) if n[0] != "sym" else vm[n[1]]).denominator
+            if d & (d - 1):
+                return True
+    return False
+
+
+def margin(tree, vm):
+    """(float value, smallest relative distance of any discontinuous node from its jump) -- plain double
+    evaluation, used ONLY to recognise ill-conditioned vectors among differential (opaque) comparisons:
+    cos(2.5) < cos(x) at x = -5/2 compares two roundings of one number and cannot be decided at 1e-9."""
+    tag = t = tree[0]
+    if tag in ("int", "rat", "flt"):
+        return float(leaf_value(tree, None)), math.inf
+    if tag == "sym":
+        return float(vm[tree[1]]), math.inf
+    kids = [margin(c, vm) for c in children(tree)]
+    v = [k[0] for k in kids]
+    m = min(k[1] for k in kids)
+    try:
+        if tag == "neg": r = -v[0]
+        elif tag == "sqrt": r = math.sqrt(v[0])
+        elif tag == "pow": r = v[0] ** tree[2]
+        elif tag in ("sin", "cos", "tan", "atan"): r = getattr(math, tag)(v[0])
+        elif tag == "add": r = v[0] + v[1]
+        elif tag == "sub": r = v[0] - v[1]
+        elif tag == "mul": r = v[0] * v[1]
+        elif tag == "div": r = v[0] / v[1]
+        elif tag in ("lt", "le", "eq", "ne"):
+            m = min(m, abs(v[0] - v[1]) / max(1.0, abs(v[0]), abs(v[1])))
+            r = float({"lt": v[0] < v[1], "le": v[0] <= v[1], "eq": v[0] == v[1], "ne": v[0] != v[1]}[tag])
+        elif tag == "min": r = min(v)
+        elif tag == "max": r = max(v)
+        elif tag == "fmod":
+            q = v[0] / v[1]
+            m = min(m, abs(q - round(q)))
+            r = math.fmod(v[0], v[1])
+        elif tag == "rem":
+            q = v[0] / v[1]
+            m = min(m, abs(q - math.floor(q) - 0.5))
+            r = math.remainder(v[0], v[1])
+        elif tag == "ite": r = v[1] if v[0] != 0 else v[2]
+        else: r = math.nan
+    except (ValueError, ZeroDivisionError, OverflowError):
+        return math.nan, 0.0
+    return r, m
 
 
 def new_res():
@@ -759,7 +817,7 @@ def run_chunks(items):
     return tot
 
 
-def leaf_value(l, env):
+def leaf_value(l, env=None):
     if l[0] == "int": return Fraction(l[1])
     if l[0] == "rat": return Fraction(l[1], l[2])
     if l[0] == "flt": return Fraction(l[1], 2 ** l[2])
